@@ -203,6 +203,10 @@ def opXcode (args : List String) (impl : String) : Result :=
           if isBad v then [s!"C08 {src}-to-{dst}-{v}"] else
           match s.ref chunks.flatten with
           | .ok vs mr =>
+            -- scope of C08: a single document, or a concatenated stream of CONTAINER documents
+            -- (no format's encoder separates top-level scalars: `Z T` ↦ `nulltrue`)
+            let inScope := vs.length ≤ 1 || vs.all (fun x => match x with | .arr _ => true | .obj _ => true | _ => false)
+            if !inScope then [] else
             if v != "ok" then
               (if mr || d.mayRefuse (optsOf opts) evs then [] else [s!"C08 {src}-to-{dst}-fails-on-valid-document"])
             else
